@@ -38,6 +38,9 @@ class C02(Check):
 
     def preload(self):
         import okdmr.dmrlib.etsi.fec.bptc_196_96  # noqa
+        from checks import c19
+
+        c19.preload_cotenant()
 
     def budget(self, tier):
         return 200.0 if tier == "quick" else 1800.0
@@ -93,6 +96,13 @@ class C02(Check):
                     ops.append({"noise": w.getrandbits(32), "weight": w.choice([3, 5, 98, -1])})  # -1: a failing call (195-bit word: raises)
                 ops.append([i])
             ops.append([])
+            if index % 3 == 0:
+                # the rest of the application uses the other FEC codes (and anything else) between the receptions
+                from checks import c19
+
+                co = c19.gen_cotenant(streams["cotenant"], n=w.choice([4, 10]), prefer=["Hamming", "VBPTC", "Golay", "Quadratic", "BPTC"])
+                for o in co:
+                    ops.insert(w.randrange(1, len(ops)), {"cotenant": o})
             return {"message": v.to_bytes(12, "big").hex(), "mclass": cls, "inplace": True, "little": index % 2 == 1, "ops": ops}
         # informational: sampled weight-3 patterns
         w = streams["work"]
@@ -139,6 +149,12 @@ class C02(Check):
         import numpy
 
         for pi, p in enumerate(pats):
+            if isinstance(p, dict) and "cotenant" in p:
+                from checks import c19
+
+                c19.run_cotenant([p["cotenant"]])
+                res.fault("cotenant_library_calls")
+                continue
             if isinstance(p, dict):  # noise reception: a corrupted-beyond-repair word of some other transmission; nothing is judged
                 r = _random.Random(p["noise"])
                 nz = BPTC19696.encode(bitarray([r.getrandbits(1) for _ in range(96)]))
